@@ -241,6 +241,11 @@ func TestCheck(t *testing.T) {
 			}
 			judge(Case{Kind: "bytes", Data: ""}, w)
 			w.Eval(true)
+			// texts that other entry points of the package understand are not binary encodings
+			for _, tx := range []string{"20020807", "2002-08-07", "0001-01-01", "1234567", "2002087", "1-01-01", "12345-01-01", "\"2002-08-07\"", "2002-8-7", "20020807\n", "\x012002-08-07", "\x0120020807", "\x01002002", "1\x00\x00\x07\xe6\x08\x07"} {
+				judge(Case{Kind: "bytes", Data: vkit.B(tx)}, w)
+				w.EvalRandom(vkit.Hash64("text", tx), true)
+			}
 		})
 	})
 
